@@ -250,6 +250,20 @@ def run_cases(res: Result, rng: random.Random, n_msgs: int, n_random: int, fails
                 add(f"MSGDEC {data.hex()} 0")
                 add(f"MSGDEC {data.hex()} 1")
             add(f"AVPSTR {w.hex()}")
+    # vendor-specific AVPs of every vendor the dictionary knows -- also those whose table ships empty -- of their neighbours
+    # and of vendors nobody knows: unknown and known codes, at top level and inside a group, in typed and untyped commands
+    from realcodec import D as _D
+    vend = sorted(v for v in _D.AVP_VENDOR_DICTIONARY if v)
+    for v in sorted(set(vend + [x + 1 for x in vend] + [1, 55555, 2**32 - 1])):
+        for code in (999999, 1, 263):
+            one = gen.rfc_wire(code, v, 0x80 | rng.choice([0, 0x40]), gen.rand_bytes(rng, rng.choice([0, 3, 4, 8])))
+            add(f"AVPDEC {one.hex()}")
+            add(f"AVPSTR {one.hex()}")
+            grp = gen.rfc_wire(456, 0, 0x40, one)
+            add(f"AVPSTR {grp.hex()}")
+            for cmd_code in (999, 272):
+                body = rng.choice([one, grp])
+                add(f"MSGDEC {(gen.rfc_header(1, 20 + len(body), 0x80, cmd_code, 4, 1, 2) + body).hex()} {rng.choice('01')}")
     # uniformly random bytes
     for i in range(n_random):
         n = rng.choice([0, 1, 7, 8, 12, 19, 20, 21, 28, 40, 100, rng.randrange(0, 400)])
